@@ -250,10 +250,10 @@ var (
 // enumDomain lists the documented values of the enum-typed properties
 // (doc/configuration.md), keyed by generic path.
 var enumDomain = map[string][]interface{}{
-	"cache.type":                                   {"simple", "ecs"},
-	"ratelimit.allowlist.type":                     {"consul", "backend"},
-	"check.kv.type":                                {"backend", "cache", "consul", "redis"},
-	"server_groups[*].servers[*].protocol":         {"dns", "dnscrypt", "https", "quic", "tls"},
+	"cache.type":                           {"simple", "ecs"},
+	"ratelimit.allowlist.type":             {"consul", "backend"},
+	"check.kv.type":                        {"backend", "cache", "consul", "redis"},
+	"server_groups[*].servers[*].protocol": {"dns", "dnscrypt", "https", "quic", "tls"},
 	"server_groups[*].servers[*].dnscrypt.inline.es_version": {1, 2},
 }
 
@@ -424,7 +424,7 @@ func (m mutation) String() string {
 }
 
 func (m mutation) render() string {
-	if m.Kind == "struct" {
+	if m.Kind == "struct" || m.Kind == "list" || m.Kind == "fault" {
 		return m.Path.String() + ": <" + m.Value.Class + ">"
 	}
 	if m.Value.Missing {
@@ -438,6 +438,17 @@ func applyMutations(root interface{}, ms []mutation, freePort int) interface{} {
 	for _, m := range ms {
 		if m.Kind == "struct" {
 			out = structApply(out, m, freePort)
+			continue
+		}
+		if m.Kind == "fault" {
+			continue // environment, not the file
+		}
+		if m.Kind == "list" && m.Value.Class == "list-one" {
+			if cur, ok := treeGet(out, m.Path); ok {
+				if l, isList := cur.([]interface{}); isList && len(l) > 0 {
+					out = treeEdit(out, m.Path, []interface{}{deepCopy(l[0])}, false)
+				}
+			}
 			continue
 		}
 		out = treeEdit(out, m.Path, m.Value.Value, m.Value.Missing)
@@ -792,4 +803,135 @@ func structApply(root interface{}, m mutation, freePort int) interface{} {
 		}
 	}
 	return mapSet(top, "server_groups", gl)
+}
+
+// ---- list operator -------------------------------------------------------------------------
+
+// walkLists calls f for every sequence node of the tree.
+func walkLists(v interface{}, p cfgPath, f func(p cfgPath, l []interface{})) {
+	switch t := v.(type) {
+	case yaml.MapSlice:
+		for _, it := range t {
+			walkLists(it.Value, p.child(key(fmt.Sprint(it.Key))), f)
+		}
+	case []interface{}:
+		f(p, t)
+		for i, it := range t {
+			walkLists(it, p.child(idx(i)), f)
+		}
+	}
+}
+
+// listFields is the list operator: every list-valued property emptied,
+// removed, or cut to its first element.  (Removal of the lists at depth 1 and 2
+// is already covered by the section operator.)
+func listFields(root interface{}) (out []field) {
+	walkLists(root, nil, func(p cfgPath, l []interface{}) {
+		f := field{Path: p, Kind: "list"}
+		f.Values = append(f.Values, mutValue{Class: "list-empty", Value: []interface{}{}})
+		if len(p) > 2 {
+			f.Values = append(f.Values, mutValue{Class: "list-removed", Missing: true})
+		}
+		if len(l) > 1 {
+			f.Values = append(f.Values, mutValue{Class: "list-one"})
+		}
+		out = append(out, f)
+	})
+	return out
+}
+
+// listAllCases applies one list operation to every occurrence of the same
+// property at once (all bind lists, all certificate lists, the session keys of
+// every group, ...).  Only occurrences that do not contain one another are
+// combined.
+func listAllCases(lists []field) (out [][]mutation) {
+	byGeneric := map[string][]field{}
+	var order []string
+	for _, f := range lists {
+		g := f.Path.generic()
+		if len(byGeneric[g]) == 0 {
+			order = append(order, g)
+		}
+		byGeneric[g] = append(byGeneric[g], f)
+	}
+	for _, g := range order {
+		fs := byGeneric[g]
+		for _, cls := range []string{"list-empty", "list-removed", "list-one"} {
+			var ms []mutation
+			for _, f := range fs {
+				for _, v := range f.Values {
+					if v.Class == cls {
+						ms = append(ms, mutation{Path: f.Path, Kind: f.Kind, Value: v})
+					}
+				}
+			}
+			// A single occurrence is the single case; but the property that is
+			// shared by all server groups is always listed, so that "every
+			// group at once" is exercised even with one group.
+			if len(ms) >= 2 || (len(ms) == 1 && strings.HasPrefix(g, "server_groups[*].tls.")) {
+				out = append(out, ms)
+			}
+		}
+	}
+	return out
+}
+
+// ---- backend matrix ----------------------------------------------------------------------------
+
+// kvFault returns the fault mode of the key-value backend in ms.
+func kvFault(ms []mutation) string {
+	for _, m := range ms {
+		if m.Kind == "fault" {
+			return m.Value.Class
+		}
+	}
+	return ""
+}
+
+// backendMatrixCases enumerates profiles on/off x check.kv.type x
+// ratelimit.allowlist.type, and for the backend key-value store the fault
+// modes of its endpoint (healthy, unreachable, always answering an error).
+func backendMatrixCases(root interface{}) (out [][]mutation) {
+	var profPaths []cfgPath
+	walkLeaves(root, nil, func(p cfgPath, v interface{}) {
+		if p.generic() == "server_groups[*].profiles_enabled" {
+			profPaths = append(profPaths, p)
+		}
+	})
+	kvPath := cfgPath{key("check"), key("kv"), key("type")}
+	alPath := cfgPath{key("ratelimit"), key("allowlist"), key("type")}
+	baseKV, _ := treeGet(root, kvPath)
+	baseAL, _ := treeGet(root, alPath)
+	envPath := cfgPath{key("env"), key("DNSCHECK_REMOTEKV_URL")}
+	for _, prof := range []bool{true, false} {
+		for _, kvT := range enumDomain["check.kv.type"] {
+			for _, alT := range enumDomain["ratelimit.allowlist.type"] {
+				faults := []string{""}
+				if fmt.Sprint(kvT) == "backend" {
+					faults = []string{"", "unreachable", "always-error"}
+				}
+				for _, fault := range faults {
+					var ms []mutation
+					if !prof {
+						for _, p := range profPaths {
+							ms = append(ms, mutation{Path: p, Kind: "bool", Value: mutValue{Class: "false", Value: false}})
+						}
+					}
+					if fmt.Sprint(kvT) != fmt.Sprint(baseKV) {
+						ms = append(ms, mutation{Path: kvPath, Kind: "enum", Value: mutValue{Class: fmt.Sprint(kvT), Value: kvT}})
+					}
+					if fmt.Sprint(alT) != fmt.Sprint(baseAL) {
+						ms = append(ms, mutation{Path: alPath, Kind: "enum", Value: mutValue{Class: fmt.Sprint(alT), Value: alT}})
+					}
+					if fault != "" {
+						ms = append(ms, mutation{Path: envPath, Kind: "fault", Value: mutValue{Class: fault}})
+					}
+					if len(ms) > 0 {
+						out = append(out, ms)
+					}
+				}
+			}
+		}
+	}
+	return out
 }
